@@ -70,6 +70,8 @@ impl<'a> LuaParser<'a> {
         };
 
         parse_chunk(&mut parser);
+        #[cfg(feature = "verif")]
+        crate::verif::record_parse(&parser.tokens, &parser.events);
         let errors = parser.get_errors();
         let root = {
             let mut builder = LuaTreeBuilder::new(
